@@ -122,6 +122,9 @@ fn run_session(forms: &[String], gc: Option<&[u64]>) -> (Vec<String>, String) {
     let (mut vm, log) = fresh_vm();
     if let Some(at) = gc {
         vm.verif_set_gc_at(at.to_vec());
+        // every collection point of the library collects too (a collection inside continuation invocation, in
+        // prepare_eval, … wherever a change may put one: seed C05f-1)
+        vm.verif_set_gc_always(at.len() % 2 == 0);
     }
     let mut res = vec![];
     for f in forms {
